@@ -47,6 +47,7 @@ Definition fhalf : b64 := @B754_finite 53 1024 false 4503599627370496 (-53) eq_r
 Definition fone  : b64 := @B754_finite 53 1024 false 4503599627370496 (-52) eq_refl.   (* 1.0 *)
 Definition ftwo  : b64 := @B754_finite 53 1024 false 4503599627370496 (-51) eq_refl.   (* 2.0 *)
 Definition fmhalf : b64 := @B754_finite 53 1024 true 4503599627370496 (-53) eq_refl.   (* -0.5 *)
+Definition fthreeq : b64 := @B754_finite 53 1024 false 6755399441055744 (-53) eq_refl.   (* 0.75 (examples) *)
 
 (* C comparisons of a double with 0.0 (false on NaN) *)
 Definition feq0 (x : b64) : bool := match x with B754_zero _ => true | _ => false end.
@@ -127,3 +128,18 @@ Definition normalised (x : rdpe) : Prop :=
   is_finite (mnt x) = true /\
   ((B2R (mnt x) = 0%R /\ esp x = 0) \/ (/2 <= Rabs (B2R (mnt x)) < 1)%R).
 Definition nonzero (x : rdpe) : Prop := B2R (mnt x) <> 0%R.
+
+(* ---- vocabulary of the error statements (specification level, not executed) -------------------------- *)
+Definition u53 : R := bpow radix2 (-53).
+(* |a - v| <= e |v| *)
+Definition rel_e (e a v : R) : Prop := (Rabs (a - v) <= e * Rabs v)%R.
+(* exponents for which no rdpe_Norm after one rounded mantissa operation can leave the range of long *)
+Definition esp_mid (e : Z) : Prop := LONG_MIN + 1074 <= e <= LONG_MAX - 1024.
+(* exponents for which no intermediate of a complex operation leaves the range of long *)
+Definition esp_small (x : rdpe) : Prop := Z.abs (esp x) <= 2 ^ 60.
+Definition cnormalised (c : cdpe) : Prop := normalised (cre c) /\ normalised (cim c).
+Definition csmall (c : cdpe) : Prop := esp_small (cre c) /\ esp_small (cim c).
+(* saturation of an exponent to the range of long *)
+Definition clampl (z : Z) : Z := Z.max LONG_MIN (Z.min LONG_MAX z).
+(* number of roundings that enter rdpe_pow_si (x, i): i products/squares; for i < 0 the inverse's rounding |i| times more *)
+Definition pow_k (i : Z) : Z := if i <? 0 then 2 * - i else i.
